@@ -1,4 +1,5 @@
 import NfcVerif.Lemmas.Retry
+import NfcVerif.Lemmas.RetryObj
 /-!
 # C16 - Tag commands retry transient errors and fail only as TagCommandError
 
@@ -276,6 +277,91 @@ theorem t2_protectpw_silent_when_gone (tlv : Bool) (fam : String) (s : Step) (re
    unfold run
    rw [prim_t12_gone Cfg.repaired _ _ _ w rfl hg]
    rfl)
+
+/-! ## histories on one FeliCa Lite / Lite-S tag object: session key and installed accessors -/
+
+section objects
+open NfcVerif.RetryObj
+
+/-- **histories on one FeliCa Lite / Lite-S tag object, every fault script**: any number of operations
+(`tag.ndef`, `tag.ndef.has_changed`, `tag.ndef.octets = ...`, direct calls of the NDEF service accessors,
+`authenticate` with a right or wrong key on Lite and Lite-S, `protect()` and any session-free operation of the
+table: presence check, dump, format) in any order on one tag object, for ANY command sequences `L`, any fault
+script (every position, class, burst length, cut answers, unknown error classes) and any object state
+`o` that satisfies the invariant (a new tag object does): every single operation ends with a value or a
+TagCommandError.  In particular the `RuntimeError` of `read_with_mac` / `write_with_mac` ("authentication
+required") is never raised from NDEF access, however an earlier `authenticate` has ended.
+(`WOK w`: the world is sound and its exchange log well-formed - true for a new tag object, see the example.) -/
+theorem object_session_outcomes_documented (L : Cmds) (ops : List OOp) (o : Obj) (w : World)
+    (hops : ∀ op ∈ ops, op.Ok) (hI : o.Inv) (hw : WOK w) :
+    ∀ out ∈ (history Cfg.repaired Variant.code L ops o w).1, Documented out :=
+  (history_good L ops o w hops hI hw).1
+
+/-- **no stale session state**: after any such history an accessor with MAC is installed only together
+with a session key (and the frontend / tag object stay sound), so the statement carries over to whatever
+the application does next -/
+theorem object_session_keeps_invariant (L : Cmds) (ops : List OOp) (o : Obj) (w : World)
+    (hops : ∀ op ∈ ops, op.Ok) (hI : o.Inv) (hw : WOK w) :
+    (history Cfg.repaired Variant.code L ops o w).2.1.Inv ∧ WOK (history Cfg.repaired Variant.code L ops o w).2.2 :=
+  (history_good L ops o w hops hI hw).2
+
+/-- **an answered command is never repeated in a history either**: in the exchange log after any history
+every primitive call consists of unanswered attempts followed by at most one more attempt, three at most -/
+theorem object_session_write_not_duplicated (L : Cmds) (ops : List OOp) (o : Obj) (w : World)
+    (hops : ∀ op ∈ ops, op.Ok) (hI : o.Inv) (hw : WOK w) :
+    LogOK (history Cfg.repaired Variant.code L ops o w).2.2.log :=
+  (history_good L ops o w hops hI hw).2.2.2
+
+/-- **a failed `authenticate` leaves nothing behind**: when a command error leaves the internal
+authentication (burst at its first or second command), the object holds no session key, no accessor with
+MAC and is not authenticated - whatever state `o` (no assumption) an earlier authentication had left -/
+theorem failed_authenticate_resets_session (L : Cmds) (macOk : Bool) (o : Obj) (w : World) (e : Exc)
+    (h : (liteAuth Cfg.repaired Variant.code L macOk o w).1 = .exc e) :
+    (liteAuth Cfg.repaired Variant.code L macOk o w).2.1.sk = false
+    ∧ (liteAuth Cfg.repaired Variant.code L macOk o w).2.1.rdMac = false
+    ∧ (liteAuth Cfg.repaired Variant.code L macOk o w).2.1.wrMac = false
+    ∧ (liteAuth Cfg.repaired Variant.code L macOk o w).2.1.auth = false :=
+  liteAuth_exc L macOk o w e h
+
+/-- the session-free operations of a history may be any program of the operation table of the Type 3 families -/
+theorem plain_ok_of_table (tlv : Bool) (P : Prog) (clears : Bool)
+    (h : FromTable tlv ["t3", "t3p", "t3std", "lite", "lites"] P) : (OOp.plain P clears).Ok := by
+  obtain ⟨fam, op, l, v, nret, hm, hp⟩ := h
+  refine prog_clean_t3 tlv fam op l v nret P hp ?_
+  simp only [List.mem_cons, List.not_mem_nil, or_false] at hm
+  exact hm
+
+/-- command sequences of a FeliCa Lite (fault-free runs of the simulated tag) -/
+def liteCmds : Cmds :=
+  let s := fun (t : String) => (⟨⟨t, t.startsWith "w"⟩, .ok⟩ : Step)
+  [[s "po"], [s "r0"], [], [s "r1x3"], [s "r0x2"], [], [s "r1x4"], [s "r0"], [], [s "w0", s "w1", s "w0"],
+   [s "r0x2"], [], [s "w0", s "w1", s "w0"], [s "r1x3"], [s "r1x3"], [s "w1"], [s "w1"], [s "w128", s "r130x2"], []]
+
+def tmo3 : List Att := [.flt .timeout false, .flt .timeout false, .flt .timeout false]
+
+/-- the history of the theorem, concretely: authenticate succeeds, the second authenticate loses its
+challenge write three times and ends with TIMEOUT_ERROR, the NDEF read on the healthy link polls and reads
+without MAC -/
+example : (history Cfg.repaired Variant.code liteCmds [.auth false true true, .auth false true true, .ndef] {}
+    (start ([.ans, .ans] ++ tmo3))).1 = [.ok .true_, .exc (.tagCmd 0), .ok .ndef] := by decide +kernel
+
+/-- **the position of the reset matters** (counter-example for the variant that puts the accessors back only
+where `_authenticate` reports a failed MAC comparison - equivalent for every normal return): the same
+history ends with RuntimeError from `tag.ndef` - with a burst at the first command as well as at the second -/
+theorem late_reset_counterexample :
+    (history Cfg.repaired Variant.late liteCmds [.auth false true true, .auth false true true, .ndef] {}
+      (start ([.ans, .ans] ++ tmo3))).1 = [.ok .true_, .exc (.tagCmd 0), .exc .runtime]
+    ∧ (history Cfg.repaired Variant.late liteCmds [.auth false true true, .auth false true true, .write] {}
+      (start ([.ans, .ans, .ans] ++ [.flt .transmission true, .flt .transmission true, .flt .transmission true]))).1
+        = [.ok .true_, .exc (.tagCmd (-1)), .exc .runtime] := by decide +kernel
+
+example : ({} : Obj).Inv := by decide
+example (script : List Att) (senses : List Bool) : WOK (start script senses) :=
+  ⟨start_sound _ _, by intro inv h; simp [start] at h⟩
+example : (OOp.plain (c3p Cfg.repaired (.ret .false_) liteCmds.poll (fin .true_)) false).Ok :=
+  plain_ok_of_table true _ false ⟨"t3", "present", [liteCmds.poll], .true_, 0, by simp, rfl⟩
+
+end objects
 
 /-! ## counter-examples (open findings) and as-found behaviour -/
 
